@@ -1,4 +1,5 @@
 import IrefVerif.Lemmas.PctBytes
+import IrefVerif.Lemmas.PctChars
 import IrefVerif.Findings
 
 /-!
@@ -11,8 +12,11 @@ Open finding F13 (not repairable inside iref: the behaviour is `pct_str::PctStr`
 `as_pct_str()` returns that type): `chars`, `len`, `decode` and `== str` unwrap a lenient
 UTF-8 decoder.  The negative facts are proved on concrete witnesses below; the class predicate
 `Findings.f13` ("the decoded octets are not strict UTF-8") is exactly the excluded hypothesis.
-The positive statement for `chars` under strict UTF-8 is checked on the implementation by the
-`pct` oracle and is not proved for the model (partial).
+The positive statement for `chars` is proved for the model on the complement of that class
+(`chars_faithful`): wherever the decoded octets are well-formed UTF-8, iterating the characters to
+the end does not panic and yields exactly the scalar values of the strict decoding — overlong and
+ill-formed sequences are never in that class, so they are never equated with well-formed text by
+this theorem's reading.
 -/
 
 namespace IrefVerif.Props.C19
@@ -40,6 +44,15 @@ theorem bytes_plain (x : Text) (h : cPct ∉ x) : pctDecode x = x := by
   | case6 c a b rest hc ih =>
     have := ih (fun e => h (List.mem_cons_of_mem _ e))
     simp [this]
+
+/-- **characters**: outside the F13 class (decoded octets well-formed UTF-8) the model of
+`PctStr::chars()` is total and yields the UTF-8 text of the decoded octets -/
+theorem chars_faithful (x : Text) (hw : wellEscaped x = true) (hf : Findings.f13 x = false) :
+    charsAll x = utf8Decode? (pctDecode x) := by
+  unfold Findings.f13 at hf
+  cases hd : utf8Decode? (pctDecode x) with
+  | none => rw [hd] at hf; simp at hf
+  | some w => exact charsAll_spec x w hw hd
 
 /-- F13, witnesses: `%FF`.chars() panics; the overlong `%C0%AF` reads as `/`; an encoded
 surrogate panics — and all three are in the finding's class -/
